@@ -207,13 +207,14 @@ fn lex_ref(s: &str) -> Option<Vec<Tok>> {
     while i < cs.len() {
         let c = cs[i];
         if c.is_ascii_alphabetic() {
-            // numbers spelled nan / inf shadow names
+            // the bare words nan / inf (any case) are numbers; a longer run of letters is a name even when it
+            // starts with one of them (repair bcc2eb4; before it, the prefix was read as a number)
             let mut j = i;
             while j < cs.len() && cs[j].is_ascii_alphabetic() { j += 1; }
             let word: String = cs[i..j].iter().collect();
             let lw = word.to_ascii_lowercase();
-            if lw.starts_with("nan") { out.push(Tok::Num("nan".into())); i += 3; continue; }
-            if lw.starts_with("inf") { out.push(Tok::Num("inf".into())); i += 3; continue; }
+            if lw == "nan" { out.push(Tok::Num("nan".into())); i += 3; continue; }
+            if lw == "inf" { out.push(Tok::Num("inf".into())); i += 3; continue; }
             out.push(Tok::Name(word));
             i = j;
         } else if c.is_ascii_digit() || c == '.' {
@@ -503,12 +504,24 @@ pub fn run_parse(o: &Opts) -> Report {
               "x⋅y", "x×y", "x÷y", "x·y", "x−y", "x∗y", "x∕y", "2⋅3", "(x)⋅(y)", "sin(x)×2", "x＋y", "x＊y", "x＾2"] {
         cases.push(PCase { arity: 2, items: items2.clone(), src: s.to_string(), expect: None, kind: "corpus" });
     }
-    // 6b. KNOWN FINDING (known_findings.jsonl): a registered name with a case-insensitive nan/inf prefix is
-    // shadowed by the number lexer (nom `double` accepts "inf"/"nan" before names are tried)
+    // 6b. repaired by bcc2eb4 (known_findings.jsonl: fixed): a registered name with a case-insensitive nan/inf prefix
+    // used to be shadowed by the number lexer (nom `double` accepts "inf"/"nan" before names are tried)
     {
         let mut items = default_items(2);
         items.push(CtxItem::Const("info".into()));
         cases.push(PCase { arity: 2, items, src: "info+1".to_string(), expect: Some(T::Bin('+', Box::new(T::Const("info".into())), Box::new(T::Num("1".into())))), kind: "shadowed-name" });
+    }
+    // names around the number words, registered as constant / variable / function, in every term position; the
+    // independent recogniser decides what is well-formed, the model what tree results
+    {
+        let mut items = default_items(2);
+        items.push(CtxItem::Const("info".into())); items.push(CtxItem::Var("nano".into(), 1)); items.push(CtxItem::Func("Infimum".into())); items.push(CtxItem::Const("nanometre".into()));
+        for src in ["info", "nano", "Infimum(2)", "nanometre", "inf", "nan", "INF", "NaN", "infinity", "infx", "nanx", "2*info", "2*infx", "info^nano", "-info", "x-nano", "Infimum(info)", "Infimum(inf)", "inf+info", "nan*INF",
+                    "(info)", "(nano)e3", "info(1)", "nano(1)", "Infimum", "inform", "Nano", "INFO", "2info", "info2", "info.5", "1e3info", "infinf", "nannan", "inf nan", "info nano", "in f", "i n f o",
+                    "2^info", "2**3+info", "sin(info)", "sin(infx)", "info+", "+info", "*info", "nanometre/nano", "infé", "infoé"] {
+            cases.push(PCase { arity: 2, items: items.clone(), src: src.to_string(), expect: None, kind: "number-words" });
+            cases.push(PCase { arity: 2, items: default_items(2), src: src.to_string(), expect: None, kind: "number-words" });
+        }
     }
     // 7. size: deep nesting and long chains (panic-freedom), powers up to 1e6 and beyond i32
     let mut sizes = vec![50usize, 200, 400];
